@@ -14,20 +14,24 @@ META = {
 
 def configs(tier):
     cs = []
-    def add(sp, hist, xmode, **kw):
-        kw.setdefault('max_paths', 1 if xmode == 0 else 10)
-        cs.append(Config('%s-h%d-x%d' % (short(sp), hist, xmode), 'C04', [sp, hist, xmode], **kw))
+    def add(sp, hist, xmode, bs=None, **kw):
+        kw.setdefault('max_paths', 1 if xmode != 1 else 10)
+        cs.append(Config('%s-h%d-x%d%s' % (short(sp), hist, xmode, '-bs%d' % bs if bs else ''), 'C04', [sp, hist, xmode] + ([bs] if bs else []), **kw))
     if tier == 'quick':
         add(spec('localp', 'localp', 2, 1, 2, order=1), 0, 0); add(spec('localp', 'semi-localp', 2, 2, 2, order=2), 1, 0); add(spec('localp', 'localp-zero', 2, 1, 2, order=3), 4, 0)
         add(spec('localp', 'localp-boundary', 2, 1, 2, order=1), 2, 0); add(spec('localp', 'localp', 2, 1, 2, order=2), 3, 0); add(spec('localp', 'localp', 2, 1, 3, order=0), 0, 0)
         add(spec('localp', 'semi-localp', 3, 1, 3, order=2), 7, 0); add(spec('localp', 'localp-boundary', 3, 1, 3, order=1), 7, 0); add(spec('localp', 'localp', 3, 1, 2, order=0), 7, 0)   # regular-parent-closed, step-parent-open subsets in 3-D
         add(spec('global', 'clenshaw-curtis', 2, 1, 2), 0, 0); add(spec('global', 'leja', 2, 2, 2), 1, 0); add(spec('global', 'gauss-legendre', 2, 1, 2), 0, 0); add(spec('global', 'clenshaw-curtis', 2, 1, 2, transform=1), 3, 0)
         add(spec('global', 'clenshaw-curtis', 2, 2, 2, transform=1), 0, 0); add(spec('sequence', 'rleja', 2, 3, 2, transform=1), 0, 0); add(spec('localp', 'localp', 2, 2, 2, order=1, transform=1), 0, 0)   # several outputs x several dimensions x a non-cubic box: the layout of the Jacobian matters
+        add(spec('localp', 'localp', 2, 1, 1, order=1), 0, 2, 32); add(spec('localp', 'semi-localp', 2, 1, 1, order=2), 4, 2, 64); add(spec('wavelet', 'wavelet', 2, 1, 1, order=1), 0, 2, 32); add(spec('sequence', 'rleja', 2, 1, 2), 0, 2, 33)   # batch sizes at the block size of the sparse assembly
         add(spec('sequence', 'rleja', 2, 1, 3), 0, 0); add(spec('sequence', 'leja', 2, 2, 2), 2, 0); add(spec('sequence', 'min-delta', 2, 1, 2), 3, 0)
         add(spec('fourier', 'fourier', 2, 1, 1), 0, 0); add(spec('fourier', 'fourier', 1, 1, 2), 4, 0)
         add(spec('wavelet', 'wavelet', 2, 1, 1, order=1), 4, 0); add(spec('wavelet', 'wavelet', 1, 1, 2, order=3), 0, 0)
         add(spec('localp', 'localp', 2, 1, 2, order=1), 0, 1); add(spec('localp', 'localp', 1, 1, 3, order=2), 4, 1); add(spec('sequence', 'rleja', 2, 1, 2), 0, 1); add(spec('global', 'clenshaw-curtis', 2, 1, 2), 0, 1)
     else:
+        for bs in (1, 31, 32, 33, 64, 96):
+            for rule in LOCAL_RULES: add(spec('localp', rule, 2, 1, 1, order=1), 0, 2, bs); add(spec('localp', rule, 1, 2, 2, order=2), 1, 2, bs)
+            add(spec('localp', 'localp', 2, 1, 1, order=0), 0, 2, bs); add(spec('wavelet', 'wavelet', 1, 1, 2, order=1), 0, 2, bs); add(spec('wavelet', 'wavelet', 2, 1, 1, order=3), 0, 2, bs); add(spec('global', 'clenshaw-curtis', 2, 1, 1), 0, 2, bs); add(spec('fourier', 'fourier', 1, 1, 1), 0, 2, bs)
         for rule in LOCAL_RULES:
             for order in (-1, 0, 1, 2, 3, 4):
                 if order == 0 and rule != 'localp': continue
